@@ -40,7 +40,7 @@
                 self.read.idx() <= self.read.data().len(),
                 number_end(old(self).read.data(), old(self).read.idx() - 1) == num_tail(self.read.data(), self.read.idx() as int, is_float),
             decreases self.read.data().len() - self.read.idx(),
-//@after /let v = unsafe \{ i8x32::from_slice_unaligned_unchecked\(chunk\) \};/
+//@after /let v =/
             let ghost base = self.read.idx() as int;
             let ghost dat = self.read.data();
 //@after /let mut nondigits =/
@@ -57,20 +57,20 @@
                     assert(self.read.data()[j] == chunk@[j - self.read.idx()]);
                 }
             }
-//@after /let mut cnt = nondigits.trailing_zeros\(\) as usize;/
+//@after /let mut cnt =/
                 proof {
                     lemma_tz32(nondigits);
                     lemma_digits_run(self.read.data(), self.read.idx() as int, cnt as int);
                 }
-//@before /nondigits = nondigits.wrapping_shr\(cnt as u32\);/
+//@before /^\s+nondigits = nondigits\./
                     let ghost nd0 = nondigits;
-//@after /nondigits = nondigits.wrapping_shr\(cnt as u32\);/
+//@after /^\s+nondigits = nondigits\./
                     proof {
                         assert forall|k: int| 0 <= k < 32 implies bit32(nondigits, k) == (k + cnt < 32 && bit32(nd0, k + cnt)) by {
                             lemma_shr32(nd0, cnt as u32, k as u32);
                         }
                     }
-//@after /let offset = nondigits.trailing_zeros\(\) as usize;/
+//@after /let offset =/
                         proof {
                             lemma_tz32(nondigits);
                             assert(self.read.idx() == base + cnt);
@@ -84,7 +84,7 @@
                             }
                             lemma_digits_run(dat, base + cnt, offset as int);
                         }
-//@before /self.read.eat\(32 - cnt\);/
+//@before /self\.read\.eat\(/ #7
                         proof {
                             assert(self.read.idx() == base + cnt);
                             assert forall|j: int| base + cnt <= j < base + 32 implies is_digit(#[trigger] dat[j]) by {
@@ -94,7 +94,7 @@
                             }
                             lemma_digits_run(dat, base + cnt, 32 - cnt);
                         }
-//@before /self.read.eat\(32\);/
+//@before /self\.read\.eat\(/ #10
             proof {
                 assert forall|j: int| 0 <= j < 32 implies !bit32(nondigits, j) by {
                     lemma_zero32(j as u32);
@@ -124,6 +124,6 @@
             res.is_ok() ==> final(self).read.idx() == number_end(old(self).read.data(), old(self).read.idx() - 1).unwrap()
                 && str_bytes(res.unwrap()) == old(self).read.data().subrange(old(self).read.idx() - 1, final(self).read.idx() as int),
             final(self).read.idx() <= old(self).read.data().len(),
-//@before /let end = self.read.index\(\);/
+//@before /let end =/
         proof { lemma_number_end_bounds(self.read.data(), start as int); }
 //@end
